@@ -84,6 +84,9 @@ def gen_unit(ctx, n):
     for _ in range(n):
         k = r.rng(1, 34)
         cases.append("idx %d" % r.rng(1 << (k - 1), 1 << k))
+    for s in (0, 1, 777, MAXSZ - 1, MAXSZ, MAXSZ + 1, MAXSZ + PAGE, 1 << 31, (1 << 32) - 1, 1 << 32, (1 << 32) + PAGE,
+              1 << 63, (1 << 64) - 1, r.rng(1, MAXSZ), r.rng(MAXSZ + 1, 1 << 40), r.rng(1 << 40, (1 << 64) - 1)):
+        cases.append("guard %d" % s)
     small = [s for s in boundary_sizes(22)]
     # allocator histories
     for _ in range(n // 4):
@@ -169,6 +172,14 @@ def unit_oracle(case, out):
                 return "size %d: class 2^%d is not the smallest that fits" % (s, i)
             if o[3] != str(1 << i):
                 return "size %d: block size %s for index %d" % (s, o[3], i)
+            return None
+        if w[0] == "guard":
+            s = int(w[1])
+            for name, rcv, av in (("setstacksize", o[2], o[3]), ("setstack", o[5], o[6])):
+                if s > MAXSZ and (rcv != str(EINVAL) or av != "777"):
+                    return "myth_thread_attr_%s with %d (above the largest size class): returned %s, attribute now %s; expected EINVAL and an unchanged attribute" % (name, s, rcv, av)
+                if s <= MAXSZ and (rcv != "0" or av != str(s)):
+                    return "myth_thread_attr_%s with %d: returned %s, attribute now %s; expected 0 and the size stored" % (name, s, rcv, av)
             return None
         if w[0] == "hist":
             ops = w[3:]
@@ -774,32 +785,62 @@ def ctl_join_values(case, events):
     return bad
 
 
-KNOWN_OVERSIZE = "C12-stack-size-above-1GiB"
-OVERSIZES = [(1 << 30) + 1, (1 << 31), (1 << 31) + 4096, (1 << 32) + 4096]
+EINVAL = 22
+GUARD_SIZES = [MAXSZ, (1 << 30) + 1, 1 << 31, (1 << 32) + 4096, (1 << 64) - 1]
 
 
-def oversize_probe(ctx, libx):
-    """one child process per size: the public setter, one creation, one join (harness op O<size>;
-    mmap is lazy, nothing of the stack is touched).  outcome: ok / rejected / crash"""
-    res = []
-    for sz in OVERSIZES:
+def size_guard_probe(ctx, libx, drv):
+    """The size guard of the public API (repair a6d2bdf of defect C12-stack-size-above-1GiB), one child
+    process per size (harness op O<size>): above 2^30 the setter returns EINVAL and leaves the attribute
+    unchanged, and myth_create_ex with a hand-filled attribute returns EINVAL and obtains no record (no
+    alloc.desc event, the ledger is unchanged); 2^30 itself is accepted and the thread runs.  The model's
+    [attr_setstacksize] / [create_stack] must say the same.  Returns (rows, failures)."""
+    rows, fails = [], []
+    mres, _, _ = vlib.run_lines([drv], ["guard %d" % sz for sz in GUARD_SIZES] + ["create %d" % sz for sz in GUARD_SIZES])
+    for k, sz in enumerate(GUARD_SIZES):
         rc, out, err = run_program(libx, ["O%d" % sz], 1, timeout=60)
-        o = [l for l in out.split("\n") if l.startswith("O size")]
-        r = [l for l in out.split("\n") if l.startswith("R ")]
-        last = o[-1].split() if o else []
-        if r and r[-1].split()[1] == "ok" and rc == 0 and "result" in last:
-            kv = dict(zip(last[1::2], last[2::2]))
-            if kv.get("set") != "0" or kv.get("create") != "0":
-                outcome, detail = "rejected", "set %s create %s" % (kv.get("set"), kv.get("create"))
-            elif kv.get("join") == "0" and kv.get("result") == "7":
-                outcome, detail = "ok", "thread ran and was joined"
-            else:
-                outcome, detail = "crash", "join %s result %s" % (kv.get("join"), kv.get("result"))
+        t = parse_trace(out)
+        o = [l.split() for l in out.split("\n") if l.startswith("O size")]
+        why = t.result["why"] if t.result else "no result line"
+        kv = {}
+        for l in o:
+            if l[3] == "set" and len(l) >= 9:
+                kv.update({"set.rc": l[4], "set.before": l[6], "set.after": l[8]})
+            elif l[3] == "hand" and len(l) >= 12:
+                kv.update({"hand.rc": l[5], "hand.allocdesc": l[7], "hand.join": l[9], "hand.result": l[11]})
+            elif l[3] == "via-setter" and len(l) >= 10:
+                kv.update({"via.rc": l[5], "via.join": l[7], "via.result": l[9]})
+        bad = []
+        nalloc = sum(1 for e in t.events if e[1] == "alloc.desc")
+        mg = mres[k].split() if k < len(mres) else []
+        mc = mres[len(GUARD_SIZES) + k].split() if len(GUARD_SIZES) + k < len(mres) else []
+        if why != "ok" or rc != 0:
+            bad.append("the library ended with %s (exit status %s) after: %s" % (why, rc, " / ".join(" ".join(l[3:]) for l in o) or "nothing"))
+        elif sz > MAXSZ:
+            if kv.get("set.rc") != str(EINVAL):
+                bad.append("myth_thread_attr_setstacksize(&a, %d) returned %s, expected EINVAL" % (sz, kv.get("set.rc")))
+            if kv.get("set.before") != kv.get("set.after"):
+                bad.append("the rejected setter changed the attribute (%s -> %s)" % (kv.get("set.before"), kv.get("set.after")))
+            if kv.get("hand.rc") != str(EINVAL):
+                bad.append("myth_create_ex with attr->stacksize = %d written by hand returned %s, expected EINVAL" % (sz, kv.get("hand.rc")))
+            if kv.get("hand.allocdesc") != "0" or nalloc != 0:
+                bad.append("the rejected creation obtained a record (%s alloc.desc event(s))" % nalloc)
         else:
-            why = r[-1].split()[1] if r else "no result line"
-            outcome, detail = "crash", "%s (exit status %s) after: %s" % (why, rc, " / ".join(o) or "nothing")
-        res.append({"size": sz, "outcome": outcome, "detail": detail})
-    return res
+            if kv.get("set.rc") != "0" or kv.get("set.after") != str(sz):
+                bad.append("myth_thread_attr_setstacksize(&a, %d) returned %s / attribute %s: a size the allocator can serve was not accepted" % (sz, kv.get("set.rc"), kv.get("set.after")))
+            if kv.get("hand.rc") != "0" or kv.get("hand.result") != "7" or kv.get("via.result") != "7" or kv.get("via.rc") != "0":
+                bad.append("a thread with a stack of %d bytes did not run: %s" % (sz, kv))
+        # model: same return codes
+        if not bad:
+            if len(mg) >= 4 and (mg[2] != kv.get("set.rc") or (sz > MAXSZ) != (mg[3] == "777")):
+                bad.append("model attr_setstacksize says %s, library returned %s" % (" ".join(mg), kv.get("set.rc")))
+            if len(mc) >= 2 and mc[1] != kv.get("hand.rc"):
+                bad.append("model create_stack says %s, library returned %s" % (" ".join(mc), kv.get("hand.rc")))
+        rows.append({"size": sz, "observed": kv, "model": [" ".join(mg), " ".join(mc)],
+                     "why": why, "ok": not bad})
+        if bad:
+            fails.append({"size": sz, "messages": bad, "result": t.result})
+    return rows, fails
 
 
 def run_controlled(ctx, drv, cases):
@@ -940,9 +981,9 @@ def run(ctx):
     ctl_fail, ctl_rej, ctl_cov = run_controlled(ctx, drv, ctl_cases)
     ctx.cov["correspondence"].update(ctl_cov)
 
-    # custom stack sizes above the allocator's range (the public setter accepts them)
-    over = oversize_probe(ctx, libx)
-    ctx.cov["correspondence"]["oversize_probe"] = over
+    # the size guard of the public API (sizes above the allocator's range must be rejected cleanly)
+    guard_rows, guard_fail = size_guard_probe(ctx, libx, drv)
+    ctx.cov["correspondence"]["size_guard_probe"] = guard_rows
     ctx.cov["trusted_base"] += [
         "extraction: ExtrOcamlBasic only; ocaml/driver_C12.ml (mmap oracle = region k at (k+1)*2^40; inference of the context switches that emit no event, each inferred step still has to be enabled in the extracted step function), ocaml/zio.ml",
         "harness/c12_unit.c (mmap intercepted by a macro to name addresses region-relative), harness/c12_lib.c (event callback, stack patterns, poison-on-release; linked -z now because lazy symbol resolution alone overflows a 4 KiB stack)",
@@ -968,18 +1009,12 @@ def run(ctx):
                       {"level": "ctl", "case": f["case"], "observed": f["messages"], "verdict": f["verdict"],
                        "expected": "no message (property C12 on the event ledger of a controlled run)",
                        "others": [x["messages"][0] for x in ctl_fail[1:6]]}, found=True)
-    bad_over = [o for o in over if o["outcome"] == "crash"]
-    if bad_over:
-        known = [k for k in vlib.known_findings("C12") if k.get("id") == KNOWN_OVERSIZE]
-        what = ("myth_thread_attr_setstacksize(&a, %d) is accepted (returns 0) and myth_create_ex with that attribute ends with %s; "
-                "every custom stack size above 2^30 does (sizes tried: %s)" % (
-                    bad_over[0]["size"], bad_over[0]["detail"], ", ".join(str(o["size"]) for o in bad_over)))
-        if known:
-            ctx.known("%s: %s" % (KNOWN_OVERSIZE, what))
-        else:
-            ctx.violation("oracle", what, {"level": "lib", "case": "prog O%d" % bad_over[0]["size"], "workers": 1,
-                                           "observed": bad_over, "expected": "the thread runs on a stack of the requested size, or the size is rejected with an error code",
-                                           "finding_id": KNOWN_OVERSIZE}, found=True)
+    if guard_fail:
+        f = guard_fail[0]
+        ctx.violation("oracle", "stack size %d: %s" % (f["size"], f["messages"][0]),
+                      {"level": "lib", "case": "prog O%d" % f["size"], "workers": 1, "observed": f["messages"], "result": f["result"],
+                       "expected": "sizes above 2^30: setter EINVAL, attribute unchanged, myth_create_ex EINVAL, no record obtained; 2^30: accepted, the thread runs",
+                       "others": ["%d: %s" % (x["size"], x["messages"][0]) for x in guard_fail[1:]]}, found=True)
     if not ufail and not lib_fail and not ctl_fail:
         if ctl_rej:
             m = ctl_rej[0]
